@@ -322,7 +322,7 @@ func c04(r *report.Run) {
 	r.Set("long_token_sources", len(longs))
 	r.Set("byte_string_length_completed", maxLen)
 	// (b) token sequences
-	toks := []string{"a", "I", "A", "O", "1", `"s"`, "nil", "not", "-", "*", "and", "==", "in", "..", "?", ":", "(", ")", ".", "?.", "[", "]", ",", "{", "}", "#", "all", "len", "Id", "N"}
+	toks := []string{"a", "I", "A", "O", "1", `"s"`, `""`, "matches", "S", "nil", "not", "-", "*", "and", "==", "in", "..", "?", ":", "(", ")", ".", "?.", "[", "]", ",", "{", "}", "#", "all", "len", "Id", "N"}
 	maxT := 3
 	if r.Tier == "thorough" {
 		maxT = 4
